@@ -24,6 +24,10 @@ def run():
                    "is unique, so this identifies the tree",
                    "same_for_both_factorizations is demanded when the grammar is LL(1) as written or both tables are "
                    "reported conflict-free (is_ambiguous() may legitimately differ between the settings otherwise)",
+                   "is_ambiguous() is read as a verdict about the grammar: asked again after parses on the same parser "
+                   "object it must give the answer of the fresh parser (demanded under ll1_not_ambiguous for LL(1) "
+                   "grammars and for tables reported conflict-free; a change on a table reported ambiguous is a "
+                   "diagnostic)",
                    "a constructor failure on a non-left-recursive grammar is a diagnostic here (C03's clause)",
                    "bounded: grammar families and string length as in the rule; each parse under a budget of "
                    "%d parse-loop events / %.0f s" % (driver.STEP_BUDGET, driver.WALL_BUDGET)], t0)
